@@ -11,6 +11,7 @@ import (
 
 	avm "github.com/artela-network/artela-evm/vm"
 	"github.com/ethereum/go-ethereum/common"
+	"github.com/ethereum/go-ethereum/crypto"
 	"github.com/holiman/uint256"
 )
 
@@ -218,7 +219,7 @@ func init() {
 		ID:    "C16",
 		Level: "exploration",
 		Rule: "kind rep: the same transaction (journal-heavy programs registering 5-8 children per node under the root, a mapping and an array; journal call trees with and without real Aspects; standard programs with extra EIPs, two transactions) is executed K times on equal pre-state in fresh EVMs inside one process (Go re-randomises map iteration per range statement, so K repetitions sample orders); the canonical serialisation - return data, gas, error, state root, logs, full call tree, balance journals and EVERY list-valued query (Children, ChildrenIndices, IndicesOfChanges, ChildrenOf, call-tree children) in the order returned - and the complete hook dump must be byte-identical; " +
-			"kind iso: execution A alone vs A with an unrelated execution B (other program, other EVM, other state, possibly other extra EIPs on the same fork) run to completion in the middle of A (inside A's step callback) and between A's transactions: A's serialisation and dump must not change, nor B's; the shared 256-bit constants are compared with their initial values after every case (canary); distinct_nontrivial = distinct serialisations",
+			"kind xproc: the same transactions re-run in another worker process, serialisations compared across processes; kind iso: execution A alone vs A with an unrelated execution B (other program, other EVM, other state, possibly other extra EIPs on the same fork) run to completion in the middle of A (inside A's step callback) and between A's transactions: A's serialisation and dump must not change, nor B's; the shared 256-bit constants are compared with their initial values after every case (canary); distinct_nontrivial = distinct serialisations",
 		Assumptions: []string{"K = 30 (quick) / 200 (thorough) repetitions sample map iteration orders; with 5 children the chance that a map-order dependence shows no second order in 30 runs is below 1e-9"},
 		Cases: func(seed uint64, tier string) []Case {
 			n := 40
@@ -232,9 +233,31 @@ func init() {
 				}
 				cs = append(cs, Case{Kind: "iso", Seed: h.Mix(seed, 0xC16A, uint64(i))})
 			}
+			// the same transactions once more at the far end of the case list: they land in another worker
+			// PROCESS, and the serialisations of the two processes must agree (checked across cases)
+			for i := 0; i < n; i++ {
+				for _, k := range []string{"children", "tree"} {
+					cs = append(cs, Case{Kind: "xproc", S: k, Seed: h.Mix(seed, 0xC16, uint64(i))})
+				}
+			}
 			return cs
 		},
 		Run: runC16,
+		Finish: func(agg *Agg, tier string) []Finding {
+			var out []Finding
+			pairs := int64(0)
+			for name, vals := range agg.Sets {
+				if !strings.HasPrefix(name, "_ser_") {
+					continue
+				}
+				pairs++
+				if len(vals) > 1 {
+					out = append(out, Finding{Key: Key("nondeterministic-across-processes", strings.Split(name, "_")[2]), Msg: fmt.Sprintf("the same transaction serialises differently in two worker processes (%s: %d distinct serialisations)", name, len(vals))})
+				}
+			}
+			agg.Obs["cross_process_comparisons"] = pairs
+			return out
+		},
 		Floors: func(tier string) map[string]int64 {
 			return map[string]int64{"repetitions": 2500, "list_results_with_5plus": 40, "isolation_pairs": 30, "interleavings_mid_execution": 10}
 		},
@@ -285,10 +308,19 @@ func runC16(c Case, tier string) (res CaseResult) {
 		}
 		res.Evals = int64(K)
 		res.Shape(base)
+		if c.S != "gen" {
+			res.Set(fmt.Sprintf("_ser_%s_%x", c.S, c.Seed), fmt.Sprintf("%x", crypto.Keccak256([]byte(base + baseDump))[:12]))
+		}
 		checkCanary(&res, t.desc)
 		if c.Seed%31 == 0 && c.S == "children" {
 			res.Sample = map[string]interface{}{"case": c, "desc": t.desc, "serialisation_excerpt": strings.Split(clip(base, 1500), "\n")}
 		}
+	case "xproc":
+		t := c16Gen(c.Seed, c.S)
+		fs0, irs0 := t.run(nil)
+		res.Set(fmt.Sprintf("_ser_%s_%x", c.S, c.Seed), fmt.Sprintf("%x", crypto.Keccak256([]byte(serializeRun(fs0, irs0) + dumpString(fs0)))[:12]))
+		res.Count("cross_process_reruns", 1)
+		res.Evals = 1
 	case "iso":
 		r := h.NewRNG(c.Seed)
 		a := c16Gen(h.Mix(c.Seed, 1), h.Pick(r, []string{"children", "tree", "gen"}))
